@@ -8,6 +8,7 @@ CONSTANTS
   EasePool <- EasesA
   TimingPool <- TimingsA
   Seed = 1
+  PosPool <- AllPos
   NRand = 400
 INVARIANTS RefinesR Emit
 CHECK_DEADLOCK FALSE
